@@ -229,3 +229,16 @@ def RECS(n: int, t: str, p: bytes, se: bool, w: str) -> bytes:
             return TAGV(n, 2) + VARINT(len(p)) + p
         return b""
     return TAGV(n, WT(t)) + p
+
+
+# ---------------------------------------------------------------------------------------------------
+# record framing on the decode side
+# ---------------------------------------------------------------------------------------------------
+def VLEN(bs: bytes) -> int:
+    """length of the varint that starts bs (position of the first byte without continuation bit, + 1);
+    len(bs) + 1 if there is none"""
+    if len(bs) == 0:
+        return 1
+    if bs[0] < 128:
+        return 1
+    return 1 + VLEN(bs[1:])
